@@ -131,6 +131,27 @@ pub fn arch_dataset(arch: &Value, n: usize, rng: &mut Rng) -> Dataset {
             *x = crate::tensors::triple_rowmajor(&usizes(&arch["input"]), &v);
         }
     }
+    // binary masks with the same number of set cells: every sample is a PERMUTATION of the same values (equal element
+    // sums, equal norms, equal extrema -- whatever cheap fingerprint of a sample one may think of, they collide)
+    if arch.get("permuted_inputs").is_some() {
+        let shape = usizes(&arch["input"]);
+        let count: usize = shape.iter().product();
+        let base: Vec<f32> = (0..count).map(|i| if i % 3 == 0 { 1.0 } else { 0.0 }).collect();
+        for x in d.inputs.iter_mut() {
+            let mut v = base.clone();
+            for i in (1..count).rev() {
+                v.swap(i, rng.below(i as u64 + 1) as usize);
+            }
+            *x = if shape.len() == 1 { Tensor::single(v) } else { crate::tensors::triple_rowmajor(&shape, &v) };
+        }
+    }
+    // image-to-image networks: the targets are volumes of the network's output shape
+    if let Some(ts) = arch.get("image_target") {
+        let shape = usizes(ts);
+        for t in d.targets.iter_mut() {
+            *t = rand_tensor(&shape, rng, false, 0.0, 1.0);
+        }
+    }
     d
 }
 
@@ -732,12 +753,14 @@ pub fn run_job_in(pool: &rayon::ThreadPool, spec: &RunSpec, user_validate_event:
             verif::register_samples(&xr);
             verif::set_jitter(spec.jitter);
             verif::start();
-            let val = if spec.nval > 0 { Some((&vx, &vy, spec.tol as i32)) } else { None };
+            // (validate scores flat outputs only: an image-to-image job trains without validation data)
+            let image = spec.arch.get("image_target").is_some();
+            let val = if spec.nval > 0 && !image { Some((&vx, &vy, spec.tol as i32)) } else { None };
             let (train, vl, va) = net.learn(&xr, &yr, val, spec.batch, spec.epochs as i32, None);
-            if user_validate_event {
+            if user_validate_event && !image {
                 verif::emit("UserValidate", "");
             }
-            let validate = net.validate(&vx, &vy, 0.25);
+            let validate = if image { (0.0, 0.0) } else { net.validate(&vx, &vy, 0.25) };
             let events = verif::take();
             verif::set_jitter(0);
             let many: Vec<&Tensor> = (0..150).map(|i| vx[i % vx.len()]).collect();
@@ -968,6 +991,18 @@ pub fn thread_jobs() -> Vec<Value> {
                "layers": [{"kind": "dense", "out": 3, "act": "linear", "bias": false},
                           {"kind": "dense", "out": 2, "act": "linear", "bias": false}],
                "objective": {"kind": "mse"}, "optimizer": {"kind": "sgd", "lr": 0.01}}),
+        // binary masks with equally many set cells through PADDED convolutions: nothing keyed by a summary of a sample may be
+        // shared between the samples of a group
+        json!({"name": "cnn-padded-permuted-masks-sgd", "ints": false, "input": [1, 6, 6], "out": 2, "permuted_inputs": true,
+               "layers": [{"kind": "conv", "filters": 2, "kernel": [3, 3], "stride": [1, 1], "padding": [1, 1], "act": "tanh"},
+                          {"kind": "conv", "filters": 1, "kernel": [3, 3], "stride": [1, 1], "padding": [2, 1], "act": "tanh"},
+                          {"kind": "dense", "out": 2, "act": "linear", "bias": true}],
+               "objective": {"kind": "mse"}, "optimizer": {"kind": "sgd", "lr": 0.05}}),
+        // image to image: the last layer is a convolution with eight output channels, the targets are volumes
+        json!({"name": "image-to-image-eight-channels-adam", "ints": false, "input": [1, 5, 5], "out": 2, "image_target": [8, 5, 5],
+               "layers": [{"kind": "conv", "filters": 3, "kernel": [3, 3], "stride": [1, 1], "padding": [1, 1], "act": "tanh"},
+                          {"kind": "conv", "filters": 8, "kernel": [3, 3], "stride": [1, 1], "padding": [1, 1], "act": "sigmoid"}],
+               "objective": {"kind": "mse"}, "optimizer": {"kind": "adam", "lr": 0.01}}),
         // six filters in a convolution that is not the first layer (its input gradient sums over the filters)
         json!({"name": "cnn-six-filters-adam", "ints": false, "input": [1, 5, 5], "out": 2,
                "layers": [{"kind": "conv", "filters": 2, "kernel": [2, 2], "stride": [1, 1], "padding": [0, 0], "act": "tanh"},
@@ -1045,7 +1080,7 @@ pub fn record_threads(seed: u64, tier: &str, trace: &mut Vec<Value>, rep: &mut R
         for &threads in thread_counts.iter() {
             for _ in 0..jitters {
                 // (one job validates on 330 samples: six evaluation chunks, so that the shape of a parallel reduction shows)
-                let nval = if name == "mlp-wide-input-adam" { 330 } else { 70 };
+                let nval = if job.get("image_target").is_some() { 0 } else if name == "mlp-wide-input-adam" { 330 } else { 70 };
                 let spec = RunSpec { arch: job.clone(), n, batch, epochs, nval, tol: 3, threads, jitter: rng.next() | 1, data_seed };
                 trace.push(net_event(run, &spec));
                 run += 1;
